@@ -1077,6 +1077,9 @@ class Exec:
             return arith("+", base.lo, idx)
         if isinstance(base, Obj):
             return self.call_method(base, "__getitem__", [idx], {}, line)
+        if isinstance(base, LambdaVal):
+            # specification-level family F[i] given as `lambda i: ...` (lemma instantiation over an expression)
+            return base.call(self, list(idx) if isinstance(idx, tuple) else [idx], {})
         raise Unsupported("subscript of %r @%s" % (base, line))
 
     def ex_Tuple(self, e):
